@@ -25,7 +25,8 @@ macro fnList()       = ctxVal(int(footnoteListKey))
 macro fnLinks()      = ifslice(ctxVal(int(footnoteLinkListKey)), "[]*ast.FootnoteLink")
 ghost linkPos(p int) int              // position of a reference node in the list of references (an injection witnesses distinctness)
 macro mval(m, k)     = (mapHas(m, k) ? mapGet(m, k) : 0)
-macro isFn(v)        = typeis(v, "*ast.Footnote")
+ghost occ(j int, x int) int           // number of references among the first j whose Index is x (fixed by the two occDef preconditions)
+macro isFn(v)        = (typeis(v, "*ast.Footnote") && ifptr(v, "*ast.Footnote") != nil)
 macro fnIndex(v)     = ifptr(v, "*ast.Footnote").Index
 macro kidsAreFn(L)   = forall i int {kid(L, i)} :: (0 <= i && i < klen(L)) ==> isFn(kid(L, i))
 macro isKidOf(v, L)  = (par(v) == L && 0 <= kidx(v) && kidx(v) < klen(L) && kid(L, kidx(v)) == v)
@@ -34,6 +35,7 @@ macro refdBefore(L, v) = forall i int {kid(L, i)} :: (0 <= i && i < klen(L) && (
 
 // the comparison closure handed to SortChildren only reads
 func (*footnoteASTTransformer).Transform$1
+  requires isFn(n1) && isFn(n2)
   modifies nothing
 
 // Assumed about the parse phase (established by footnoteBlockParser.Close and footnoteParser.Parse, which put
@@ -42,21 +44,36 @@ func (*footnoteASTTransformer).Transform$1
 func (*footnoteASTTransformer).Transform
   uses nodeModel
   requires WF() && node != nil && pc != nil
-  requires [listShape] fnList() != nil ==> (typeis(fnList(), "*ast.FootnoteList") && par(fnList()) != nil && !isFn(par(fnList())) && kidsAreFn(fnList()))
+  requires [listShape] fnList() != nil ==> (typeis(fnList(), "*ast.FootnoteList") && ifptr(fnList(), "*ast.FootnoteList") != nil && par(fnList()) != nil && !isFn(par(fnList())) && kidsAreFn(fnList()))
   // "a definition that is never referenced produces no output": when the list is sorted (and then kept or dropped),
   // every definition still in it has been referenced (Index >= 0)
+  requires [linksShape] ctxVal(int(footnoteLinkListKey)) != nil ==> typeis(ctxVal(int(footnoteLinkListKey)), "[]*ast.FootnoteLink")
   requires [links] forall j int :: (0 <= j && j < len(fnLinks())) ==> fnLinks()[j] != nil
   requires [linksDistinct] forall j int :: (0 <= j && j < len(fnLinks())) ==> linkPos(int(fnLinks()[j])) == j     // pairwise different nodes
+  // occ is a ghost parameter: any caller can supply the counting function of its reference list
+  requires [occDef0] forall x int {occ(0, x)} :: occ(0, x) == 0
+  requires [occDefS] forall j int, x int {occ(j, x), fnLinks()[j]} :: (0 <= j && j < len(fnLinks())) ==> occ(j + 1, x) == occ(j, x) + (fnLinks()[j].Index == x ? 1 : 0)
+  // "references and back-links correspond one to one", reference side: the k-th reference (k = 0, 1, ..) to note x carries
+  // RefIndex k, and every reference to x carries RefCount = the total number of references to x
+  ensures [refIndex] (old(fnList()) != nil && old(ctxVal(int(footnoteLinkListKey))) != nil) ==> (forall j int :: (0 <= j && j < len(old(fnLinks()))) ==> old(fnLinks())[j].RefIndex == occ(j, old(fnLinks())[j].Index))
+  ensures [refCount] (old(fnList()) != nil && old(ctxVal(int(footnoteLinkListKey))) != nil) ==> (forall j int :: (0 <= j && j < len(old(fnLinks()))) ==> old(fnLinks())[j].RefCount == (old(fnLinks())[j].Index >= 0 ? occ(len(old(fnLinks())), old(fnLinks())[j].Index) : 0))
   // every reference carries the number of references to its note, and the references to one note carry strictly
   // increasing (hence pairwise different) reference indices, starting at 0
   callassert [refCounts] ast.(*BaseNode).SortChildren#1: forall j int :: (0 <= j && j < len(fnlist)) ==> (fnlist[j].RefCount == mval(counter, fnlist[j].Index) && fnlist[j].RefIndex >= 0)
-  callassert [refIndexDistinct0] ast.(*BaseNode).FirstChild#1: forall j int, k int :: (0 <= j && j < k && k < len(fnlist) && fnlist[j].Index == fnlist[k].Index) ==> fnlist[j].RefIndex < fnlist[k].RefIndex
-  callassert [refIndexDistinct] ast.(*BaseNode).SortChildren#1: forall j int, k int :: (0 <= j && j < k && k < len(fnlist) && fnlist[j].Index == fnlist[k].Index) ==> fnlist[j].RefIndex < fnlist[k].RefIndex
+  callassert [refIndexDistinct0] ast.(*BaseNode).FirstChild#1: forall j int, k int {fnlist[j], fnlist[k]} :: (0 <= j && j < k && k < len(fnlist) && fnlist[j].Index == fnlist[k].Index) ==> fnlist[j].RefIndex < fnlist[k].RefIndex
+  callassert [refIndexDistinct] ast.(*BaseNode).SortChildren#1: forall j int, k int {fnlist[j], fnlist[k]} :: (0 <= j && j < k && k < len(fnlist) && fnlist[j].Index == fnlist[k].Index) ==> fnlist[j].RefIndex < fnlist[k].RefIndex
+  loop 0 inv sameslice(fnlist, old(fnLinks())) && counter != nil
+  loop 0 inv rangeindex < len(fnlist)
+  loop 0 inv [counted] forall x int {occ(rangeindex + 1, x)} {occ(rangeindex + 2, x)} {occ(len(fnlist), x)} :: mval(counter, x) == (x >= 0 ? occ(rangeindex + 1, x) : 0)
+  loop 1 inv [counted] forall x int {occ(len(fnlist), x)} :: mval(counter, x) == (x >= 0 ? occ(len(fnlist), x) : 0)
+  loop 1 inv rangeindex < len(fnlist)
+  loop 1 inv [refCounted] forall x int {occ(rangeindex + 1, x)} {occ(rangeindex + 2, x)} :: mval(refCounter, x) == occ(rangeindex + 1, x)
+  loop 1 inv [refIndexed] forall j int :: (0 <= j && j <= rangeindex) ==> fnlist[j].RefIndex == occ(j, fnlist[j].Index)
   loop 1 inv forall j int :: (0 <= j && j < len(fnlist)) ==> (fnlist[j] != nil && linkPos(int(fnlist[j])) == j)
   loop 1 inv sameslice(fnlist, old(fnLinks())) && counter != nil && refCounter != nil && refCounter != counter
   loop 1 inv forall x int :: mapHas(refCounter, x) ==> mapGet(refCounter, x) >= 0
   loop 1 inv forall j int :: (0 <= j && j <= rangeindex) ==> (fnlist[j].RefCount == mval(counter, fnlist[j].Index) && 0 <= fnlist[j].RefIndex && mapHas(refCounter, fnlist[j].Index) && fnlist[j].RefIndex < mapGet(refCounter, fnlist[j].Index))
-  loop 1 inv forall j int, k int :: (0 <= j && j < k && k <= rangeindex && fnlist[j].Index == fnlist[k].Index) ==> fnlist[j].RefIndex < fnlist[k].RefIndex
+  loop 1 inv forall j int, k int {fnlist[j], fnlist[k]} :: (0 <= j && j < k && k <= rangeindex && fnlist[j].Index == fnlist[k].Index) ==> fnlist[j].RefIndex < fnlist[k].RefIndex
   callassert [unreferencedRemoved] ast.(*BaseNode).SortChildren#1: WF() && refdBefore(asnode(list), nil) && kidsAreFn(asnode(list))
   loop 2 inv WF() && list != nil && asnode(list) == old(fnList()) && par(asnode(list)) == old(par(fnList()))
   loop 2 inv footnote == nil || isKidOf(footnote, asnode(list))
